@@ -72,6 +72,26 @@ def bidOwes (d : String) : BidEntry → Nat
 def owed (s : State) (d : String) : Nat :=
   Book.sumBy (askOwes d) s.asks + Book.sumBy (bidOwes d) s.bids
 
+/-- what the ask / the bid under a key is owed in `d` (0 when it is not on the book) -/
+def askHeld (d : String) (s : State) (k : String) : Nat :=
+  match s.asks.get? k with | some a => askOwes d a | none => 0
+def bidHeld (d : String) (s : State) (k : String) : Nat :=
+  match s.bids.get? k with | some e => bidOwes d e | none => 0
+
+/-- C09 "over the bid's life the fees add up", on one accepted match, in the bid's quote
+    denomination: what the two matched orders held before (the bid: unspent quote + unspent
+    fee) = what they hold afterwards + what the contract paid out – so the fee that leaves the
+    bid, all of it when the match closes the bid, is paid to the fee account or returned with
+    the price improvement, never dropped -/
+def C09_feeLeavesOK (contract : String) (s : State) (c : Call) (askId bidId : String)
+    (r : Response) (s' : State) : Bool :=
+  match loadBid s bidId with
+  | some b =>
+    let d := b.quote.denom
+    askHeld d s askId + bidHeld d s bidId + fundsOf c.funds d + credit contract r.msgs contract d
+      == askHeld d s' askId + bidHeld d s' bidId + debit contract r.msgs contract d
+  | none => true
+
 /-- C01, one accepted step, one denomination: holdings before + everything received =
     holdings after + everything paid out, where holdings are what the book owes -/
 def C01_denomOK (contract : String) (s : State) (c : Call) (r : Response) (s' : State)
